@@ -17,7 +17,8 @@ The subset
   expressions  integer and bytes constants, names, self.a, len(e), e[a:b] e[:b] e[a:], e + e (both int or both bytes), bytes(e), bytearray(),
                struct.unpack('>I', e)[0]  (raises unless len(e) = 4), struct.pack('>I', e)  (raises unless e < 2^32),
                comparisons < <= > >= == != of ints, `not`, `and`, `or`, self.getProp(self.KEY, False/True)
-`toUpper` / `toLower` are taken to return normally (what happens when the layers above raise is modelled separately, Model/Segments.lean `peelF`).
+Every definition takes a predicate `bad : Bytes → Bool`: `self.toUpper(x)` with `bad x` is a call into layers that raise (the frame counts as handed
+up, the method ends with the exception); `fun _ => false` is the run in which nothing above fails.  `toLower` is taken to return normally.
 Every `while` becomes a structurally recursive function over a fuel argument; running out of fuel sets `fuelOut`."""
 import ast
 
@@ -172,8 +173,10 @@ class Method(object):
                 t, ty, rc = self.expr(s.value.args[0])
                 if ty != BYTES:
                     raise Unsupported("%s(%s)" % (f.attr, ty))
-                ch = "up" if f.attr == "toUpper" else "low"
-                return self.guard(rc, "{ e with %s := e.%s ++ [%s] }" % (ch, ch, t))
+                if f.attr == "toUpper":
+                    # the layers above may raise while a frame is handed to them (`bad`): the frame counts as handed up, the method ends there
+                    return self.guard(rc, "(if bad (%s) then { e with up := e.up ++ [%s], raised := true } else { e with up := e.up ++ [%s] })" % (t, t, t))
+                return self.guard(rc, "{ e with low := e.low ++ [%s] }" % t)
             if (f.attr == "extend" and isinstance(f.value, ast.Attribute) and isinstance(f.value.value, ast.Name)
                     and f.value.value.id == "self" and len(s.value.args) == 1):
                 t, ty, rc = self.expr(s.value.args[0])
@@ -203,7 +206,7 @@ class Method(object):
             idx = len(self.loops) - 1
             body = self.block(s.body, 3)
             self.loops[idx] = (name, c, body)
-            return "(%s fuel e)" % name
+            return "(%s bad fuel e)" % name
         raise Unsupported("statement %s" % ast.unparse(s).split("\n")[0])
 
     def block(self, stmts, ind):
@@ -276,14 +279,14 @@ class Translator(object):
             body = m.block(fn.body, 1)
             for (ln, c, b) in m.loops:
                 defs.append("/-- the `while` loop of `%s` (line %d), one turn per unit of fuel -/\n"
-                            "def %s : Nat → Env → Env\n"
+                            "def %s (bad : Bytes → Bool) : Nat → Env → Env\n"
                             "  | 0, e => if %s then { e with fuelOut := true } else e\n"
                             "  | fuel+1, e =>\n"
                             "    if %s then\n"
                             "      let e : Env := %s;\n"
-                            "      if e.raised then e else if e.brk then { e with brk := false } else %s fuel e\n"
+                            "      if e.raised then e else if e.brk then { e with brk := false } else %s bad fuel e\n"
                             "    else e\n" % (name, fn.lineno, ln, c, c, b, ln))
-            defs.append("/-- `%s` (line %d of the source) -/\ndef %s (fuel : Nat) (e : Env) : Env :=\n  %s\n" % (name, fn.lineno, lname(name), body))
+            defs.append("/-- `%s` (line %d of the source) -/\ndef %s (bad : Bytes → Bool) (fuel : Nat) (e : Env) : Env :=\n  %s\n" % (name, fn.lineno, lname(name), body))
         fields = "".join("  %s : %s := %s\n" % (f, t, {"Nat": "0", "Bytes": "[]", "Bool": "false", "Option Bool": "none"}[t])
                          for f, t in sorted(self.fields.items()))
         env = ("structure Env where\n" + fields +
